@@ -30,6 +30,13 @@ def cases(tier):
     yield "chain-outer-hop-shadowed-rec", f"let\n  a = {D};\n  b = a;\nin\nrec {{\n  a = \"INNER\";\n  version = b;\n}}\n", "version", None
     yield "chain-3-levels", f"let\n  a = {D};\n  b = a;\nin\nlet\n  a = \"MID\";\n  c = b;\nin\nlet\n  a = \"INNER\";\n  b = \"B\";\nin\n{{\n  version = c;\n}}\n", "version", None
     yield "twin-layers", 'let\n  v = "1";\nin\nlet\n  v = "OLD";\nin\n{\n  version = v;\n}\n'.replace('"1"', '"OLD"').replace('v = "OLD";\nin\nlet', 'v = "OUT";\nin\nlet'), "version", None
+    # a shadowing layer that is structurally equal to an enclosing one is still the defining one (identity, not equality)
+    yield ("equal-layers", 'let\n  v = "OLD";\nin\nlet\n  v = "OLD";\nin\n{\n  version = v;\n}\n', "version",
+           'let\n  v = "OLD";\nin\nlet\n  v = "NEW";\nin\n{\n  version = v;\n}\n')
+    yield ("equal-layers-3", 'let\n  v = "OLD";\n  w = 1;\nin\nlet\n  u = 0;\nin\nlet\n  v = "OLD";\n  w = 1;\nin\n{\n  version = v;\n}\n', "version",
+           'let\n  v = "OLD";\n  w = 1;\nin\nlet\n  u = 0;\nin\nlet\n  v = "NEW";\n  w = 1;\nin\n{\n  version = v;\n}\n')
+    yield ("equal-layers-rec", 'let\n  v = "OLD";\nin\nlet\n  v = "OLD";\nin\nrec {\n  alias = v;\n  version = alias;\n}\n', "version",
+           'let\n  v = "OLD";\nin\nlet\n  v = "NEW";\nin\nrec {\n  alias = v;\n  version = alias;\n}\n')
     yield "lambda-let", f"{{ pkgs }}:\nlet\n  v = {D};\nin\n{{\n  version = v;\n}}\n", "version", None
     yield "lambda-let-call", f"{{ pkgs }}:\nlet\n  v = {D};\nin\npkgs.mkDerivation {{\n  version = v;\n}}\n", "version", None
     yield "nested-path", f"let\n  v = {D};\nin\n{{\n  meta = {{\n    version = v;\n  }};\n}}\n", "meta.version", None
